@@ -54,6 +54,7 @@ type ChainSpec struct {
 	ExtRot      int  // rotation applied to the leaf's other extensions
 	NotAfterDay int  // leaf NotAfter = Epoch + NotAfterDay days (default 365 when 0)
 	SigAlg      int  // index into the issuer key's algorithm list
+	Quirky      bool // the leaf carries a SAN iPAddress of 5 octets: the lenient parser accepts it with a non-fatal error
 }
 
 // Built is a resolved ChainSpec.
@@ -128,6 +129,10 @@ func Build(s ChainSpec) *Built {
 		{OID: []int{1, 3, 6, 1, 4, 1, 55555, 1}, Value: derx.Octets([]byte(cn))}}
 	if s.LeafAKI {
 		others = append(others, pki.AKI(pki.KeyID(signer.Key)))
+	}
+	if s.Quirky {
+		// replace the SAN by one that also holds a malformed iPAddress (5 octets)
+		others[2] = pki.Ext{OID: pki.OIDExtSAN, Value: derx.Seq(derx.TLV(0x82, []byte(cn+".example.com")), derx.TLV(0x87, []byte{10, 0, 0, 1, 9}))}
 	}
 	r := mod(s.ExtRot, len(others))
 	others = append(others[r:], others[:r]...)
@@ -222,5 +227,6 @@ func GenSpec(t *rapid.T, label string) ChainSpec {
 	s.IncludeRoot = rapid.Bool().Draw(t, label+".incroot")
 	s.ExtRot = rapid.IntRange(0, 5).Draw(t, label+".rot")
 	s.SigAlg = rapid.IntRange(0, 2).Draw(t, label+".alg")
+	s.Quirky = rapid.IntRange(0, 7).Draw(t, label+".quirky") == 0
 	return s
 }
